@@ -14,7 +14,11 @@ RULE = ("Each case = 3-8 seeded test cases over sut/raisers.py executed by the r
         "under the time-driven baton scheduler). A head of 1-3 statements calls functions whose traced operator "
         "(<,<=,>,>=,==,!=,in,not in,truthiness; builtin incomparable operands or user operators) raises one of 6 "
         "exception types INSIDE the tracer callback, caught by the SUT (guarded, chained, nested) or escaping; a tail "
-        "of 1-4 statements runs further branching code. Metric sets {BRANCH},{BRANCH,LINE},{LINE} per case. "
+        "of 1-4 statements runs further branching code. Metric sets {BRANCH},{BRANCH,LINE},{LINE},{BRANCH,CHECKED} per "
+        "case (under CHECKED, property getters and __getattr__ that raise are attribute-access callbacks). 35 % of the "
+        "cases add an overlap scenario: an operator blocks (simulated sleep) inside the callback, the executor abandons "
+        "the thread after the timeout, and a benign test case runs on the same executor while that thread is parked in "
+        "the callback - it must see an enabled tracer at every statement and record what its clean reference records. "
         "Non-trivial = at least one exception actually propagated out of a tracer callback and tail statements ran; "
         "distinct = distinct digest of (test cases, results).")
 ASSUMPTIONS = [
@@ -50,11 +54,11 @@ _callback_exc = [0]
 _wrapped = [False]
 _last_cb = ["none"]
 _cb_depth = [0]  # >0 while the (single) worker thread is inside a tracer callback
-_METRICS = [("BRANCH",), ("BRANCH", "LINE"), ("LINE",)]
+_METRICS = [("BRANCH",), ("BRANCH", "LINE"), ("LINE",), ("BRANCH", "CHECKED")]
 
 
 def group_key(item):
-    return item % 3 if isinstance(item, int) else -1
+    return item % 4 if isinstance(item, int) else -1
 
 
 def _wrap_callbacks():
@@ -63,7 +67,7 @@ def _wrap_callbacks():
     from pynguin.instrumentation.tracer import ExecutionTracer
 
     for name in ("executed_compare_predicate", "executed_bool_predicate", "executed_in_presence_predicate",
-                 "executed_exception_match"):
+                 "executed_exception_match", "track_attribute_access"):
         orig = getattr(ExecutionTracer, name)
 
         def wrapper(self, *a, _VerifWrap__orig=orig, **k):
@@ -152,6 +156,9 @@ def gen_fault_call(r):
         # truthy object whose __len__ raises: the tracer's own distance computation raises
         # after bool() succeeded (the exception reaches the SUT, which catches it)
         return [r.choice(["guarded_bool", "guarded_not", "guarded_any_bool"]), ["T", 55, mode]]
+    if r.random() < 0.12:
+        # attribute access that raises in a property getter / __getattr__ (a tracer callback under CHECKED coverage)
+        return [r.choice(["guarded_attr", "guarded_ghost"]), r.choice([-6, -7, -6, -7, 3]), mode]
     k = r.randrange(0, 11)
     other = r.choice([0, 5, -7, "s", 2.5])
     if k == 0:  # builtin incomparable operands -> TypeError inside _lt/_le
@@ -209,7 +216,15 @@ def gen_case(run_seed: int, tier: str) -> dict:
             head.append(gen_fault_call(r) if r.random() < 0.8 else gen_benign_call(r))
         tail = [gen_benign_call(r) for _ in range(r.randrange(1, 5))]
         ops.append({"head": head, "tail": tail})
-    return {"run_seed": run_seed, "knobs": {"metrics": run_seed % 3}, "ops": ops}
+    o = st.get("overlap")
+    if o.random() < 0.35:
+        # an operator that BLOCKS inside the tracer callback past the timeout: the thread is abandoned while it is
+        # in the callback, and the next test case runs on the same executor while it is still parked there
+        stall = o.choice([["guarded_lt", ["T", -1, 20], 3], ["guarded_eq", ["T", -2, 20], 1],
+                          ["guarded_bool", ["T", -3, 20]], ["guarded_in", 1, ["T", -4, 20]]])
+        ops.insert(o.randrange(len(ops) + 1), {"overlap": True, "head": [stall],
+                                                "tail": [gen_benign_call(o) for _ in range(o.randrange(1, 4))]})
+    return {"run_seed": run_seed, "knobs": {"metrics": run_seed % 4}, "ops": ops}
 
 
 # ---------------------------------------------------------------------------
@@ -251,6 +266,53 @@ def _calibrate(env):
         env.excluded_lines |= (_sut_lines(env, sch) & inst) - _covered_linenos(env, res)
 
 
+def _overlap(env, i, op, hist, probes):
+    """Test A blocks inside a tracer callback and is abandoned after its timeout; test B (benign) then runs on the same
+    executor and scheduler while A is still parked in the callback.  B must see an enabled tracer at every statement
+    and must record everything its clean reference records."""
+    from ..sched import SimOverrun
+
+    clock, sch = env.new_sim(decisions=Decisions(None, {}), policy="time_driven", sut_line_cost_ns=1_000)
+    ex = env.new_executor(2, 1, probe=True)
+    tc_a = build_tc(env, op["head"])
+    tc_b = build_tc(env, op["tail"])
+    _cb_depth[0] = 0
+    violation = None
+    with clock:
+        try:
+            sch.watch_deadline = 600 * 10**9
+            res_a = env.execute_traced(sch, ex, tc_a)
+            sch.mark_abandoned()
+            probes["overlap_first_test_timed_out"] = probes.get("overlap_first_test_timed_out", 0) + int(res_a.timeout)
+            n0 = len(ex.samples)
+            res_b = env.execute_traced(sch, ex, tc_b)
+            sig = result_signature(res_b)
+            hist.add("overlap", i, tc_a.to_code(), tc_b.to_code(), res_a.timeout, simkit.stable_hash(sig))
+            probes["overlap_scenarios"] = probes.get("overlap_scenarios", 0) + 1
+            if res_a.timeout and not sig["timeout"]:
+                for k, (b, a, exc) in enumerate(ex.samples[n0:]):
+                    if b or a:
+                        violation = {"signature": "state:disabled-while-another-thread-is-parked-in-a-callback",
+                                     "message": f"test #{i}: tracer is_disabled before/after statement #{k} of the test that "
+                                                f"runs after an abandoned one = {b}/{a}\n{tc_b.to_code()}"}
+                        break
+                if violation is None and not sig["exceptions"]:
+                    ref = env.reference(repr(op["tail"]), lambda: build_tc(env, op["tail"]))
+                    lost = [f"{kk}-{sorted(set(ref[kk]) - set(sig[kk]))[:6]}" for kk in
+                            ("lines", "code_objects", "pred_true", "pred_false") if set(ref[kk]) - set(sig[kk])]
+                    if lost:
+                        violation = {"signature": f"lost-after-abandoned-callback:{lost[0].split('-')[0]}",
+                                     "message": f"test #{i}: the test that runs after a thread was abandoned inside a tracer "
+                                                f"callback misses what its clean reference records: {lost}"}
+        except SimOverrun as e:
+            violation = {"signature": "overlap:no-return", "message": f"executor did not return: {e}"}
+        finally:
+            sch.watch_deadline = None
+            sch.mark_abandoned()
+            sch.shutdown()
+    return violation
+
+
 def run_case(case: dict) -> dict:
     env = get_env(case["knobs"]["metrics"])
     _calibrate(env)
@@ -261,6 +323,11 @@ def run_case(case: dict) -> dict:
     executed = []
     instrumented = {m.line_number for m in env.props.existing_lines.values()}
     for i, op in enumerate(case["ops"]):
+        if op.get("overlap"):
+            violation = _overlap(env, i, op, hist, probes)
+            if violation:
+                break
+            continue
         calls = op["head"] + op["tail"]
         tc = build_tc(env, calls)
         _callback_exc[0] = 0
